@@ -119,6 +119,64 @@ def _c05_tree_expand_all():
     return None
 
 
+def _c05_var_url():
+    log = []
+
+    class Doc(_O):
+        def absolute_url(self):
+            return 'http://host/SECRET-PATH/doc'
+    t = _guarded(log, refuse_attr=('absolute_url',))('<dtml-var o url>|<dtml-var "o" url>')
+    try:
+        out = t(o=Doc(nid='doc'))
+    except Exception:  # noqa
+        return None
+    if 'SECRET-PATH' in out and not [x for x in log if x[-1] == 'absolute_url']:
+        return {'input': "<dtml-var o url>|<dtml-var \"o\" url>, guard refuses (o, 'absolute_url')", 'output': out,
+                'what': 'the guard is never asked for absolute_url'}
+    return None
+
+
+def _c05_fmt_mapping_key():
+    log = []
+
+    class Rec:
+        nid = 'rec'
+
+        def __str__(self):
+            return '<record>'
+
+        def __getitem__(self, k):
+            return {'secret': 'SECRET-VALUE', 'pub': 'p'}[k]
+    t = _guarded(log, refuse_attr=('secret', '__getitem__'), refuse_items=('rec',))('<dtml-var rec fmt="%(secret)s">')
+    try:
+        out = t(rec=Rec())
+    except Exception:  # noqa
+        return None
+    if 'SECRET-VALUE' in out and not [x for x in log if x[0] == 'item' or x[-1] in ('secret', '__getitem__')]:
+        return {'input': '<dtml-var rec fmt="%(secret)s"> with a record-like value', 'output': out,
+                'what': "rec['secret'] is read by the % operator, no guard of the template class is asked"}
+    return None
+
+
+def _c05_special_format_attr():
+    hits = {}
+    for fmt, attrs in (('sql-quote', {'replace': lambda self, a, b: 'SECRET-REPLACED'}),
+                       ('structured-text', {'meta_type': 'DTML Document', 'read_raw': lambda self: 'SECRET-RAW'})):
+        log = []
+        cls = type('Doc', (_O,), dict(attrs, __str__=lambda self: 'doc'))
+        t = _guarded(log, refuse_attr=('replace', 'meta_type', 'read_raw'))('<dtml-var o fmt=%s>' % fmt)
+        try:
+            out = t(o=cls(nid='doc'))
+        except Exception:  # noqa
+            continue
+        if 'SECRET' in out and not [x for x in log if x[-1] in ('replace', 'meta_type', 'read_raw')]:
+            hits[fmt] = out[:80]
+    if hits:
+        return {'input': '<dtml-var o fmt=sql-quote> / fmt=structured-text on an object with replace / meta_type + read_raw, all refused '
+                         'by the guard', 'outputs': hits, 'what': 'the guard is never asked'}
+    return None
+
+
 def _c16_index_column():
     from DocumentTemplate import HTML
     rows = [{'index': 4, 'number': 10}, {'index': 9, 'number': 20}, {'index': 7, 'number': 60}]
@@ -251,7 +309,8 @@ PROBES = {
     'C04': [('C04-requote-list-format', _c04_requote_list_format)],
     'C13': [('C13-locale-none', _c13_locale_none)],
     'C05': [('C05-tree-sort-key', _c05_tree_sort_key), ('C05-tree-id', _c05_tree_id),
-            ('C05-tree-expand-all', _c05_tree_expand_all)],
+            ('C05-tree-expand-all', _c05_tree_expand_all), ('C05-var-url', _c05_var_url),
+            ('C05-fmt-mapping-key', _c05_fmt_mapping_key), ('C05-special-format-attr', _c05_special_format_attr)],
     'C16': [('C16-index-column', _c16_index_column), ('C16-hyphen-column', _c16_hyphen_column)],
     'C07': [('C07-var-named-var', _c07_var_named_var), ('C07-tag-name-end-prefix', _c07_tag_name_end_prefix),
             ('C07-tag-name-nonletter', _c07_tag_name_nonletter)],
